@@ -6,6 +6,7 @@ CONSTANTS
  MaxSyncs = 4
  MaxPatches = 1
  MaxUpdaters = 2
+ InitSnapshot = TRUE
 INVARIANT SnapshotWithinLog
 INVARIANT UserDocIsSnapshot
 INVARIANT OneUpdaterAtATime
